@@ -140,7 +140,9 @@ func createProcess(p *Process, isMethod bool) {
 	case "err":
 		//p.Stderr.Writeln([]byte("Invalid usage of named pipes: stderr defaults to <err>."))
 	case "out":
-		p.Stderr = p.Next.Stdin
+		// stderr follows stdout: the next command's stdin when piped, the
+		// parent's stdout otherwise
+		p.Stderr = p.Stdout
 	default:
 		pipe, err := GlobalPipes.Get(p.NamedPipeErr)
 		if err == nil {
